@@ -227,10 +227,19 @@ impl Poll {
             .borrow()
             .next_deadline()
             .map(|deadline| deadline.saturating_duration_since(Instant::now()));
+        #[cfg(calloop_verif)]
+        let verif_user_timeout = timeout;
         timeout = match (timeout, next_timeout) {
             (Some(timeout), Some(next_timeout)) => Some(timeout.min(next_timeout)),
             _ => timeout.or(next_timeout),
         };
+
+        #[cfg(calloop_verif)]
+        crate::verif::record_poll(crate::verif::PollRecord {
+            user_timeout: verif_user_timeout,
+            next_timeout,
+            effective: timeout,
+        });
 
         let mut events = self.events.borrow_mut();
         events.clear();
